@@ -45,6 +45,10 @@ More information:
 {'01': '38425876095074'}
 >>> validate('(17)181119(01)38425876095074(37)1')
 '013842587609507417181119371'
+>>> validate('(10)~(17)181119', separator='~')  # empty value
+Traceback (most recent call last):
+    ...
+InvalidFormat: ...
 """
 
 import datetime
